@@ -99,7 +99,7 @@ Proof. exact ex_file_accepted. Qed.
 
 Example C34_ex_normal_form :
   match normalize idc [] ex_file with
-  | mkFileP _ _ _ _ _ _ [mkMsgP _ (f :: _) _ _ _ _ _ _ _ _ _] _ _ _ _ => f_type_name f = Some (bs ".a.M.M")
+  | mkFileP _ _ _ _ _ _ [mkMsgP _ (f :: _) _ _ _ _ _ _ _ _ _] _ _ _ _ => f_type_name f = Some ex_abs_name
   | _ => False
   end.
 Proof. exact ex_file_normal_form. Qed.
